@@ -247,7 +247,7 @@ Exec(s, st) ==
               IF it.st.exc # "" THEN it.st ELSE LoopO(it.v, 0, s.s, s.a[2], it.st)
     [] s.t = "break" -> [st EXCEPT !.sig = "brk"]
     [] s.t = "continue" -> [st EXCEPT !.sig = "cnt"]
-    [] s.t = "tryexc" ->                \* try: a[1]  except InjectedError: a[2]
+    [] s.t = "tryexc" ->                \* try: a[1]  except InjectedError [as e]: a[2]     (e is never read)
          LET s1 == Exec(s.a[1], st) IN
          IF s1.exc = "InjectedError" THEN Exec(s.a[2], [s1 EXCEPT !.exc = ""]) ELSE s1
     [] s.t = "tryfin" ->                \* try: a[1]  finally: a[2]
@@ -344,6 +344,8 @@ SysProgs2 == <<
   <<ForS("x", A, ForS("y", X, GAsg(Tup(X, Y))))>>,
   <<TryE(Asg("x", AddAB), Asg("x", NegB)), Ret(X)>>,
   <<TryE(Ret(Tup(AddAB, NegB)), Ret(A))>>,
+  <<Nd("tryexc", "e", <<Ret(Tup(AddAB, NegB)), Ret(A)>>)>>,
+  <<ForS("x", A, Nd("tryexc", "e", <<GAsg(E1("neg", X)), Nd("continue", "", <<>>)>>)), Ret(X)>>,
   <<TryE(Blk(<<Asg("x", AddAB), Asg("y", E1("neg", X)), GAsg(Y)>>), GAsg(E1("attr", A))), Ret(NegB)>>,
   <<TryF(Asg("x", AddAB), GAsg(NegB)), Ret(X)>>,
   <<TryF(Ret(AddAB), GAsg(NegB))>>,
@@ -371,7 +373,7 @@ SysProgs2 == <<
   <<ForS("x", Tup(AddAB, NegB), TryF(Ret(X), Nd("break", "", <<>>))), Ret(NegB)>>,
   <<ForS("x", A, TryF(GAsg(E1("neg", Y)), Nd("break", "", <<>>))), Asg("y", A)>>,
   <<TryF(Ret(AddAB), IfS(A, Ret(NegB), PassS))>>,
-  <<TryF(ExprS(E1("neg", Y)), Ret(A)), Asg("y", A)>>,
+  <<IfS(B, Asg("y", A), PassS), TryF(ExprS(E1("neg", Y)), Ret(A))>>,
   <<TryF(TryF(Ret(AddAB), GAsg(NegB)), GAsg(E1("neg", A)))>>,
   <<TryF(Ret(AddAB), WithS("x", A, GAsg(X)))>>,
   <<TryE(TryF(Ret(AddAB), GAsg(NegB)), Ret(E1("neg", A)))>>,
@@ -380,7 +382,7 @@ SysProgs2 == <<
   <<Asg("x", E3("lt3", A, AddAB, NegB)), Ret(X)>>,
   <<IfS(E1("not", E2("in", A, B)), Ret(E2("fstr", A, AddAB)), Ret(E1("str", NegB)))>>
 >>
-Sys == [i \in 1..Len(SysProgs1) |-> Nd("prog", "", SysProgs1[i])] \o [i \in 1..Len(SysProgs2) |-> Nd("prog", "", SysProgs2[i])]
+SysAll == SysProgs1 \o SysProgs2
 
 (* derived programs: a derivation of the grammar is selected by a hash *)
 Mix(h, j) == (h * 75 + j * 2731 + 74) % 65537
@@ -499,7 +501,7 @@ GenS(d, h, bd, lp) ==
             [] c = 1 -> IfS(C1, S1, PassS)
             [] c = 2 -> ForS(tg, IF h % 3 = 0 THEN Nd(IF h % 2 = 0 THEN "tuple" ELSE "list", "", <<O1, GenO(1, Mix(h, 31), bd)>>) ELSE O1,
                              IF h % 2 = 0 THEN LB ELSE TBlk(<<LB, LB2>>))
-            [] c = 3 -> TryE(S1, GenS(d - 1, Mix(h, 32), bd, lp))
+            [] c = 3 -> Nd("tryexc", IF h % 2 = 0 THEN "" ELSE "e", <<S1, GenS(d - 1, Mix(h, 32), bd, lp)>>)
             [] c = 4 -> TryF(S1, NF)
             [] c = 5 -> WithS(IF h % 3 = 0 THEN "" ELSE tg, O1, IF h % 3 = 0 THEN S1 ELSE WB)
             [] c = 6 -> TBlk(<<S1, S2>>)
@@ -514,6 +516,7 @@ GenProg(h) ==
       s4 == GenS(SDepth, Mix(h, 14), AsgOf(s1) \cup AsgOf(s2) \cup AsgOf(s3), FALSE)
   IN Nd("prog", "", Trunc(SubSeq(<<s1, s2, s3, s4>>, 1, n)))
 
+Sys == [i \in 1..Len(SysAll) |-> Nd("prog", "", Trunc(SysAll[i]))]
 NSys == Len(Sys)
 ProgOf(p) == IF p <= NSys THEN Sys[p] ELSE GenProg(Mix(Mix(Seed % 65537, p), 5))
 
